@@ -217,6 +217,35 @@ def run(rep, tier, seed, replay):
                 rep.violation("oracle", "the glob obtained by %s reports depth %s but its program matches a path of %d components (the glob built by Glob::new reports %s)" % (
                     sj["route"], sj["depth"], outside[0], i.get("depth")), {"expr": sj["expr"], "route": sj["route"], "components": outside[0]}, impl=sj["depth"])
 
+    # ---- HISTORY: a glob that has answered depth() (and the other queries) and is then partitioned, re-owned or combined
+    # reports, for the new value, a depth judged on the new value's own program (a remembered answer must not travel)
+    import random as _r41
+    r = _r41.Random(seed + 41)
+    if replay is None or replay["input"].get("what") == "history":
+        hk = built if replay is not None else (built if len(built) <= (1500 if tier == "quick" else 20000) else r.sample(built, 1500 if tier == "quick" else 20000))
+        direct = ["a/b/*", "src/lib/**/*.rs", "a/**", "x/y/z/{a,b/c}", "a/b/<c/:1,3>d", "/a/**/b"] if replay is None else []
+        subj = [exprs[k] for k in hk] + direct
+        todo4 = []
+        for e, line in zip(subj, h.ask(["XH " + hexs(e) for e in subj])):
+            rep.evaluations += 1
+            if "=DIFF<" not in line:
+                rep.stats["history: queried-then-converted = converted"] += 1
+                continue
+            for item in line.split(" "):
+                if "=DIFF<" in item:
+                    name, rest = item.split("=", 1)
+                    f = dict(x.split("=", 1) for x in rest[5:-1].split("|") if "=" in x)
+                    pat = rest[5:-1].split("|")[-1]
+                    todo4.append((e, name, f, pat, rest))
+        for (e, name, f, pat, rest), line in zip(todo4, h.ask(["N %s %s" % (pat, "1" if f.get("root") == "always" else "0") for (_, _, f, pat, _) in todo4])):
+            counts = [int(x) for x in line[len("counts "):].strip("[]").split(",") if x != ""] if line.startswith("counts") else []
+            outside = [c for c in counts if not contains(f.get("depth", "unb"), c)]
+            if outside and not f.get("depth", "").startswith("panic"):
+                rep.violation("oracle", "the value obtained by %s reports depth %s but its own program matches a path of %d components (the same conversion of a glob that was never queried reports something else)" % (
+                    name, f.get("depth"), outside[0]), {"expr": e, "route": name, "components": outside[0], "what": "history"}, impl=rest[:300])
+            else:
+                rep.stats["history: differs, depth still contains the counts"] += 1
+
     def ask(wit):
         if "any" in wit:
             ms = wit["any"]
